@@ -24,6 +24,7 @@ CONSTANTS
   ResetSeparate = FALSE
   JumpToFirstAvailable = FALSE
   ReportOnlyIfBitSet = TRUE
+  ResendWithoutCheck = FALSE
 SPECIFICATION Spec
 VIEW View
 INVARIANTS C08_NoLostIndex
